@@ -598,3 +598,9 @@ def unit_test(case):
         "print([(type(b).__name__, getattr(b, 'key', None), [(f.key, f.value) for f in getattr(b, 'fields', [])]) for b in lib.blocks])\n"
         "# compare with the expected block list stored under witness.expected in this file\n"
     )
+
+
+def ENV_SHARDS(tier):
+    """The broad, cheap families: run again in a fresh interpreter per environment (engine.run_environments)."""
+    return [s for s in shards('quick') if s[0] in ("L3pair", "L3remove", "idents", "big", "L1")]
+
